@@ -10,6 +10,16 @@ NOTE = ("Trusted: Coq 8.16.1 kernel (vm_compute, no native_compute); no axioms d
         "tools/gen_facts.py for tables; glibc and the file system are oracles (DESIGN.md section 8).")
 
 CLAIMS = {
+ "C03": dict(
+   text=("Theorems C03_lookup (the visible value of every (section,key) is the override's if it defines the key, else the "
+         "base's), C03_complete, C03_nothing_else, C03_section (per section: base keys in base order with overridden values, "
+         "then override-only keys), C03_new_section, C03_base_order, C03_sections_order, C03_nogroup_first, C03_bound (the result "
+         "array is never written beyond |base|+|override| — the memory-safety obligation), C03_empty_*: all for ALL pairs of "
+         "entry lists (any length, re-opened sections, duplicate keys, empty sides) of the model of econf_mergeFiles. "
+         "Inputs unchanged: C10_merge_inputs + dumps before/after in the runs. Correspondence: full dump of merge results "
+         "of random pairs (quick) / all pairs up to 3+3 over {none,A,B}x{x,y} (thorough) built by setters or parsed."),
+   technique="Coq proof (induction over the base's runs; per-section refinement to an association-list override) + differential correspondence",
+   ref="6 (C03)"),
  "C08": dict(
    text=("Theorems C08_int32/int64/uint32/uint64: for EVERY value of the type, the typed setter followed by the matching getter "
          "returns the value (decimal printing and strtol-family parsing are modelled and proved inverse, all sizes, by induction "
